@@ -2100,6 +2100,26 @@ static bool parse_ignored(TokenContext &ctx, Chunk &pc)
          return(true);
       }
    }
+   // Only a comment that leads the line can end the region; any other line that
+   // holds the text is part of the region and is kept as it is
+   size_t idx = 0;
+
+   while (  idx < pc.GetStr().size()
+         && unc_isspace(pc.GetStr()[idx]))
+   {
+      idx++;
+   }
+
+   if (  idx + 1 >= pc.GetStr().size()
+      || pc.GetStr()[idx] != '/'
+      || (  pc.GetStr()[idx + 1] != '*'
+         && pc.GetStr()[idx + 1] != '/'
+         && (  pc.GetStr()[idx + 1] != '+'
+            || !language_is_set(lang_flag_e::LANG_D))))
+   {
+      pc.SetType(CT_IGNORED);
+      return(true);
+   }
    ctx.restore();
 
    // parse off whitespace leading to the comment
